@@ -39,3 +39,4 @@ void upcase(std::string &s) { for (size_t i = 0; i < s.size(); ++i) if (s[i] >= 
 void fill_name(char *s) { std::strcpy(s, "nineteen-characters"); }
 int sumvec(const std::vector<int> &v) { int t = 0; for (size_t i = 0; i < v.size(); ++i) t += v[i]; return t; }
 int live(int which) { return which == 0 ? counters.obj_live : which == 1 ? counters.other_live : which == 2 ? counters.pool_in_use : counters.obj_made; }
+void iota(std::vector<int> &v) { v.clear(); for (int i = 0; i < g_room; ++i) v.push_back(1000 + i); }
